@@ -409,6 +409,7 @@ def callFn (o : Oracles) (ctx : Ctx) (fname : String) (args : List Val) : Except
       (match t with
        | .str ts => pure (.str (String.ofList (pySlice ts.toList s e)))
        | .list xs => pure (.list (pySlice xs s e))
+       | .row _ => pyErrE .keyError          -- `row[a:b]`: a slice is hashable (Python ≥ 3.12), so the dict lookup raises KeyError
        | _ => pyErrE .typeError)
     | _, _ => exprErrE "substring() start and end must be integers"
   | "trim" =>
